@@ -71,6 +71,7 @@ package geojson
 //@ func decodeCoordinates
 //@   prop C06, C07
 //@   mode fp
+//@   panics_with *InvalidGeometryError
 //@   panics [not_a_number_array] !numArray(jsonCoordinates)
 //@   ensures [values] fresh(result) && jIs1(jsonCoordinates, result)
 //@   modifies nothing
@@ -80,6 +81,7 @@ package geojson
 //@ func decodeCoordinates2
 //@   prop C06, C07
 //@   mode fp
+//@   panics_with *InvalidGeometryError
 //@   panics [not_an_array_of_number_arrays] !numArray2(jsonCoordinates)
 //@   ensures [values] fresh(result) && jIs2(jsonCoordinates, result)
 //@   modifies nothing
@@ -89,6 +91,7 @@ package geojson
 //@ func decodeCoordinates3
 //@   prop C06, C07
 //@   mode fp
+//@   panics_with *InvalidGeometryError
 //@   panics [not_a_3_level_number_array] !numArray3(jsonCoordinates)
 //@   ensures [values] fresh(result) && jIs3(jsonCoordinates, result)
 //@   modifies nothing
@@ -99,6 +102,7 @@ package geojson
 //@ func decodeCoordinates4
 //@   prop C06, C07
 //@   mode fp
+//@   panics_with *InvalidGeometryError
 //@   panics [not_a_4_level_number_array] !numArray4(jsonCoordinates)
 //@   ensures [values] fresh(result) && jIs4(jsonCoordinates, result)
 //@   modifies nothing
@@ -111,6 +115,7 @@ package geojson
 //@ func makeLinearRing
 //@   prop C06, C07
 //@   mode fp
+//@   panics_with *InvalidGeometryError
 //@   panics [not_pairs] !pairs(coordinates)
 //@   ensures [points] fresh(result) && isXYs(coordinates, result)
 //@   modifies nothing
@@ -120,6 +125,7 @@ package geojson
 //@ func makeLinearRings
 //@   prop C06, C07
 //@   mode fp
+//@   panics_with *InvalidGeometryError
 //@   panics [not_pairs] exists a int :: 0 <= a && a < len(coordinates) && !pairs(coordinates[a])
 //@   ensures [rings] fresh(result) && isXYss(coordinates, result)
 //@   modifies nothing
@@ -135,6 +141,7 @@ package geojson
 //@ func doFromGeoJSON
 //@   prop C06, C07
 //@   mode fp
+//@   panics_with *InvalidGeometryError, *UnsupportedGeometryError
 //@   requires [nonnil] g != nil
 //@   panics [invalid_or_unsupported] true
 //@   ensures [point] g.Type == "Point" ==> typeof(result) == geom.Point && jXY(g.Coordinates, result.(geom.Point))
@@ -151,3 +158,17 @@ package geojson
 //@   loop 2 `for i, coord := range coordinates` #2
 //@     invariant [basic] fresh(multiPolygon) && len(multiPolygon) == len(coordinates) && #2 <= len(coordinates) && jIs4(g.Coordinates, coordinates)
 //@     invariant [members] forall k int :: 0 <= k && k < #2 ==> isXYss(coordinates[k], multiPolygon[k])
+
+//@ func FromGeoJSON$1
+//@   inline
+
+//@ func FromGeoJSON
+//@   prop C06, C07
+//@   mode fp
+//@   requires [nonnil] geom != nil
+//@   ensures [geometry_or_error] (err == nil && typeof(g) != nil) || (err != nil && typeof(g) == nil)
+//@   ensures [known_type] err == nil ==> geom.Type == "Point" || geom.Type == "MultiPoint" || geom.Type == "LineString" || geom.Type == "MultiLineString" || geom.Type == "Polygon" || geom.Type == "MultiPolygon"
+//@   ensures [point] err == nil && geom.Type == "Point" ==> typeof(g) == geom.Point && jXY(geom.Coordinates, g.(geom.Point))
+//@   ensures [polygon] err == nil && geom.Type == "Polygon" ==> typeof(g) == geom.Polygon && jXYss(geom.Coordinates, g.(geom.Polygon))
+//@   ensures [multipolygon] err == nil && geom.Type == "MultiPolygon" ==> typeof(g) == geom.MultiPolygon && jXYsss(geom.Coordinates, g.(geom.MultiPolygon))
+//@   modifies nothing
